@@ -199,6 +199,18 @@ func (ft *FT) translate() {
 			}
 		}
 	}
+	if ft.e.recNames != nil && !ft.collect {
+		m := ft.e.recNames[fn.String()]
+		if m == nil {
+			m = map[string]string{}
+			ft.e.recNames[fn.String()] = m
+		}
+		var ps []string
+		for _, p := range fn.Params {
+			ps = append(ps, p.Name())
+		}
+		m["$params"] = strings.Join(ps, ",")
+	}
 	nilTested := nilComparedParams(fn)
 	for _, p := range fn.Params {
 		v := b.declVal(p)
